@@ -4,9 +4,10 @@ import OAuth2Model.Model.Device
 namespace Drv.PollOp
 open Proto Device
 
-/-- reply kinds used by the harness; 0 pending, 1 slow_down, 2 transport failure, ≥3 decisive -/
+/-- reply kinds used by the harness; 0 pending, 1 slow_down, 2 transport failure, ≥3 decisive; 20–24 are pending /
+slow_down error documents under statuses other than 400 (the error CODE decides, not the status) -/
 def replyOf : Nat → Reply
-  | 0 => .pending | 1 => .slowDown | 2 => .fail | k => .done k
+  | 0 | 20 | 21 | 22 => .pending | 1 | 23 | 24 => .slowDown | 2 => .fail | k => .done k
 
 /-- outcome token the implementation must report for a decisive reply of kind `k` -/
 def outcomeTok : Nat → String
@@ -19,6 +20,11 @@ def outcomeTok : Nat → String
   | 9 => "rparse"                  -- 200 carrying only an error document
   | 10 => "rparse"                 -- 400 carrying a token document
   | 11 => "rsrv-ext"               -- unknown error code (extension)
+  | 12 => "rother"                 -- empty 504
+  | 13 => "rsrv-access_denied"     -- 504 + error document
+  | 14 => "rsrv-invalid_grant"     -- 408 + error document
+  | 15 => "rsrv-expired_token"     -- 502 + error document
+  | 16 => "rparse"                 -- 201 carrying a token document
   | _ => "r?"
 
 def evTok : Ev → String
